@@ -68,16 +68,22 @@ pub fn observe(inst: &Inst, kind: &RngKind) -> Option<Observed> {
             instances.push((r.id, hist, l, w, ext.clone()));
         }
     }
+    // scalars an instance can have produced: the 64-byte draws reduced, and (for code that draws in other portions)
+    // every 64-byte window of the instance's output stream that starts on a 32-byte boundary
     let draws: Vec<Vec<Scalar>> = instances
         .iter()
         .map(|(id, ..)| {
-            recs.iter()
-                .filter(|r| r.id == *id)
-                .filter_map(|r| match &r.ev {
-                    Ev::Draw { out } if out.len() == 64 => Some(wide(out)),
-                    _ => None,
-                })
-                .collect()
+            let outs: Vec<&Vec<u8>> = recs.iter().filter(|r| r.id == *id).filter_map(|r| match &r.ev { Ev::Draw { out } => Some(out), _ => None }).collect();
+            let mut v: Vec<Scalar> = outs.iter().filter(|o| o.len() == 64).map(|o| wide(o)).collect();
+            if outs.iter().any(|o| o.len() != 64) {
+                let stream: Vec<u8> = outs.iter().flat_map(|o| o.iter().cloned()).collect();
+                let mut off = 0;
+                while off + 64 <= stream.len() {
+                    v.push(wide(&stream[off..off + 64]));
+                    off += 32;
+                }
+            }
+            v
         })
         .collect();
     Some(Observed { proof, parts, chal, nonces, recs, tid, instances, draws })
@@ -223,7 +229,7 @@ pub fn c14(opts: &Opts, out: &mut Out) {
                 continue;
             }
             if let Ev::Draw { out: d } = &r.ev {
-                if d.len() != 64 {
+                if d.is_empty() {
                     continue;
                 }
                 ndraws += 1;
@@ -364,7 +370,7 @@ pub fn c14(opts: &Opts, out: &mut Out) {
         let mut keyed = true;
         for r in &recs {
             if let Ev::Draw { out: d } = &r.ev {
-                if d.len() == 64 {
+                if !d.is_empty() {
                     nd += 1;
                     let wit_ok = r.hist.iter().any(|e| matches!(e, Ev::Rekey { witness, .. } if !witness.is_empty()));
                     let ext_ok = r.hist.iter().any(|e| matches!(e, Ev::Finalize { ext } if ext.len() >= 32));
